@@ -124,6 +124,62 @@ def ib_cli_stage(ctx, rng, nruns=6):
         shutil.rmtree(T, ignore_errors=True)
 
 
+def ib_strategy_stage(ctx, rng, nruns=8):
+    """SignWithIntegrityBlock (package main of cmd/sign-bundle, so out of the harness's reach) driven with signing strategies the command
+    line never builds: the sign-bundle package is compiled with one overlay-only file (harness/overlay/go/bundle/cmd/sign-bundle) that feeds
+    the function a strategy whose GetPublicKey answers follow a list. The model (signFile) asks for the key once: what is verified, what
+    is recorded in the attributes and what the ID is computed from are one value. Expected output comes from the model alone."""
+    T = tempfile.mkdtemp(prefix='verif-ibhook-', dir=os.environ.get('TMPDIR', '/tmp'))
+    try:
+        hook = os.path.join(os.path.dirname(os.path.dirname(os.path.abspath(__file__))), 'harness', 'overlay', 'go', 'bundle', 'cmd', 'sign-bundle', 'zz_verif_hook.go')
+        ov = os.path.join(T, 'overlay.json')
+        json.dump({'Replace': {os.path.join(os.path.realpath(REPO), 'go/bundle/cmd/sign-bundle/zz_verif_hook.go'): hook}}, open(ov, 'w'))
+        binp = os.path.join(T, 'sign-bundle-hooked')
+        rc, out, err = sh(['go', 'build', '-overlay', ov, '-o', binp, './go/bundle/cmd/sign-bundle'], cwd=REPO, env=GOENV)
+        if rc != 0:
+            ctx.infra.append('building the hooked sign-bundle failed: ' + err.decode()[-300:]); return
+        seeds = [hexs(bytes([i + 1]) * 32) for i in range(3)]
+        pks = ctx.go([f'oracle.edkey {s}' for s in seeds])
+        if not all(pks):
+            ctx.infra.append('oracle.edkey failed'); return
+        jobs, lines = [], []
+        for i in range(nruns):
+            data = bytes([0x84, 0x48]) + rbytes(rng, [16, 300, 2000, 40][i % 4]) + (0).to_bytes(8, 'big')
+            data = data[:-8] + len(data).to_bytes(8, 'big')
+            # answers of the key store, call by call: constant and right; right then different; constant and wrong; wrong then right;
+            # right twice then different
+            seq = [[pks[0]], [pks[0], pks[1]], [pks[1]], [pks[1], pks[0]], [pks[0], pks[0], pks[2]], [pks[0], pks[2], pks[0]]][i % 6]
+            inp, outp = os.path.join(T, f'in{i}.wbn'), os.path.join(T, f'out{i}.swbn')
+            open(inp, 'wb').write(data)
+            jobs.append((i, data, seq, outp)); lines.append(f'{inp} {outp} {seeds[0]} {",".join(seq)}')
+        rc, out, err = sh([binp], env=dict(os.environ, VERIF_IBCLI_HOOK='1'), inp=('\n'.join(lines) + '\n').encode())
+        res, ids, cur = [], [], []
+        for l in out.decode().splitlines():
+            if l.startswith('VERIFHOOK '):
+                res.append(l.split(' ', 1)[1]); ids.append(cur); cur = []
+            elif l.startswith('Web Bundle ID: '):
+                cur.append(l[len('Web Bundle ID: '):].strip())
+        if rc != 0 or len(res) != len(jobs):
+            ctx.infra.append(f'hooked sign-bundle: exit {rc}, {len(res)} answers for {len(jobs)} jobs: ' + err.decode()[-200:]); return
+        for (i, data, seq, outp), r, idl in zip(jobs, res, ids):
+            pk = seq[0]
+            dts = ctx.model([f'ib.dts {hashlib.sha512(data).hexdigest()} f09f968bf09f93a6:31620000:. {hexs(b"ed25519PublicKey")}={pk}'])[0]
+            if not (dts and dts.startswith('ok ')):
+                ctx.infra.append('ib.dts failed in the model'); return
+            sig = ctx.go([f'oracle.edsign {seeds[0]} {dts.split(" ")[1]}'])[0]
+            vd = ctx.go([f'oracle.edverify {pk} {dts.split(" ")[1]} {sig}'])[0]
+            mo = ctx.model([f'ib.signfile {hexs(data)} {pk} {sig} {vd}'])[0]
+            got = r
+            if r == 'ok':
+                got = 'ok ' + hexs(open(outp, 'rb').read())
+            if r == 'ok':          # the ID reported with a successful signing is the ID of the key recorded in the block
+                mid = ctx.model([f'ib.id {pk}'])[0]
+                ctx.records.append((f'ibhook.reported-id run={i} key-answers={"/".join(p[:8] for p in seq)}', ' '.join(hexs(x.encode()) for x in idl), (mid or 'err').replace('ok ', '')))
+            ctx.records.append((f'ibhook.sign run={i} in={len(data)}B key-answers={"/".join(p[:8] for p in seq)} signing-key={pks[0][:8]}', got, mo))
+    finally:
+        shutil.rmtree(T, ignore_errors=True)
+
+
 SXG_URIS = ['https://example.com/page%d.html', 'https://example.com/caf\u00e9-%d.html', 'https://example.com/hello world %d.html', 'HTTPS://example.com/index%d.html', 'https://example.com/a|b%d',
             'https://example.com/p%d#', 'https://EXAMPLE.com/p%d', 'https://example.com/%%7Euser/%d', 'https://example.com/x%d?', 'https://example.com:443/q%d']
 
